@@ -31,6 +31,15 @@ func runC09(c *core.Ctx) {
 		c.Need(es != nil, "sealEpoch copies the stored epoch state")
 		okInc, okVal := false, false
 		var incPt, valPt core.Point
+		// the single-definition local whose value was stored as the new epoch (`n := es.Epoch + 1; es.Epoch = n`)
+		var carrier *types.Var
+		nEpochStores := 0
+		isOldEpoch := func(e ast.Expr) string {
+			if sel, isSel := ast.Unparen(e).(*ast.SelectorExpr); isSel && varOf(se, sel.X) == es && fieldNameOf(se, sel) == "abft.EpochState.Epoch" {
+				return "epoch"
+			}
+			return ""
+		}
 		for _, a := range assignments(se) {
 			root, path := fieldPath(se, a.LHS)
 			if varOf(se, root) != es || len(path) != 1 {
@@ -38,10 +47,27 @@ func runC09(c *core.Ctx) {
 			}
 			switch path[0] {
 			case "abft.EpochState.Epoch":
+				nEpochStores++
 				if a.Tok == token.INC {
 					okInc, incPt = true, a.Pt
 				} else if a.Tok == token.ADD_ASSIGN && core.IsConstInt(se.Info(), a.RHS, 1) {
 					okInc, incPt = true, a.Pt
+				} else if a.Tok == token.ASSIGN && a.RHS != nil {
+					// es.Epoch = <the copy's epoch> + 1, spelled out or computed into a local beforehand (the local
+					// is read before this statement stores, so only stores strictly in between would matter)
+					rhs := ast.Unparen(a.RHS)
+					var via *types.Var
+					if v := varOfRaw(se, rhs); v != nil {
+						if d := singleDef(se, v); d != nil {
+							if pt, own := c09defPoint(se, v, d); own && c09stableAt(se, d, pt, a.Pt, true, true) {
+								rhs, via = d, v
+							}
+						}
+					}
+					lin := core.Linearize(se.Info(), rhs, isOldEpoch)
+					if len(lin.Coef) == 1 && coefIs(lin, "epoch", 1) && lin.C.IsInt64() && lin.C.Int64() == 1 {
+						okInc, incPt, carrier = true, a.Pt, via
+					}
 				}
 			case "abft.EpochState.Validators":
 				if varOf(se, a.RHS) == nv {
@@ -60,13 +86,17 @@ func runC09(c *core.Ctx) {
 				okSet = a && b
 			}
 		}
-		c.Check(okInc && okVal && okSet, "next epoch number and exactly the callback's validators are persisted", "T2 Dominates + provenance", se.Pos(), "Epoch++ and Validators = newValidators precede SetEpochState(&copy)", "the sealed epoch state is not (old epoch + 1, callback's validators)")
+		c.Check(okInc && nEpochStores == 1 && okVal && okSet, "next epoch number and exactly the callback's validators are persisted", "T2 Dominates + provenance", se.Pos(), "Epoch++ and Validators = newValidators precede SetEpochState(&copy)", "the sealed epoch state is not (old epoch + 1, callback's validators)")
 		rs := se.CallsTo("abft.Orderer.resetEpochStore")
 		okRS := len(rs) == 1 && okSet
 		if okRS {
 			// a local holding the incremented epoch stands for the field when nothing stores to it afterwards
 			_, pth := fieldPath(se, c09snapshot(se, rs[0].Call.Args[0]))
 			okRS = len(pth) == 1 && pth[0] == "abft.EpochState.Epoch"
+			// … and so does the very local whose value was stored as the new epoch
+			if !okRS && carrier != nil && varOfRaw(se, rs[0].Call.Args[0]) == carrier {
+				okRS = true
+			}
 			d, _ := se.MustPassBefore(core.Points(sets), rs[0].Pt)
 			okRS = okRS && d
 		}
@@ -144,12 +174,51 @@ func runC09(c *core.Ctx) {
 			c.Check(!miss, "returned validators always seal the epoch", "T3 PostDominates", od.Pos(), "the newValidators != nil edge always reaches sealEpoch", "validators returned by the callback can be ignored")
 		}
 		// Reset with the new validators at FirstFrame after sealing
+		// (the Reset may be shared with the other branch and be fed by locals assigned per branch: what
+		// counts is which definitions reach it on a run through sealEpoch)
 		okR := false
 		for _, r := range od.CallsTo("abft/election.Election.Reset") {
-			if varOf(od, r.Call.Args[0]) == newV {
-				cst, isC := od.ObjOf(r.Call.Args[1]).(*types.Const)
-				d := len(seals) == 1 && afterSuccess(od, seals[0], r.Pt)
-				okR = isC && p.ObjName(cst) == "abft.FirstFrame" && d
+			if len(seals) != 1 || len(r.Call.Args) != 2 || !od.CanReach(seals[0].Pt, r.Pt) {
+				continue
+			}
+			seal := seals[0]
+			one, nV, nF := true, 0, 0
+			for _, d := range c08reaching(od, r.Call.Args[0], r.Pt, newV) {
+				if !c08sameRun(od, d, seal.Pt) {
+					continue
+				}
+				nV++
+				if d.E == nil || varOf(od, d.E) != newV {
+					one = false
+				}
+			}
+			for _, d := range c08reaching(od, r.Call.Args[1], r.Pt) {
+				if !c08sameRun(od, d, seal.Pt) {
+					continue
+				}
+				nF++
+				if d.E == nil {
+					one = false
+					continue
+				}
+				if cst, isC := od.ObjOf(d.E).(*types.Const); !isC || p.ObjName(cst) != "abft.FirstFrame" {
+					one = false
+				}
+			}
+			// reached from the seal only when it succeeded, and from the "validators returned" edge only through the seal
+			ev := errVarOfCall(od, seal.Call)
+			succ := ev != nil
+			if succ {
+				succ, _ = od.GuardedBetween(seal.Pt, r.Pt, varNilFact(od, ev, true))
+			}
+			edges := edgesWithFact(od, sealed)
+			for _, e := range edges {
+				if _, skip := (core.PathQuery{F: od, From: blockEntry(e.B.Succs[e.Succ]), Target: core.PointSet(r.Pt), Avoid: core.PointSet(seal.Pt)}).Find(); skip {
+					succ = false
+				}
+			}
+			if one && nV > 0 && nF > 0 && succ && len(edges) > 0 {
+				okR = true
 			}
 		}
 		c.Check(okR, "election restarts at the first frame with the new validators after sealing", "T2+T4", od.Pos(), "election.Reset(newValidators, FirstFrame) after sealEpoch succeeded", "after sealing the election is not reset to (new validators, first frame)")
@@ -176,7 +245,7 @@ func runC09(c *core.Ctx) {
 			okRet = okRet && one
 		}
 		c.Check(okRet && nRet >= 1, "onFrameDecided reports whether it sealed", "provenance", od.Pos(), "every successful return yields newValidators != nil", "callers cannot tell that the epoch was sealed")
-		frameBookkeeping(c)
+		c08FrameBookkeeping(c)
 	})
 
 	c.Clause("C09.stop", func() { c09Stop(c) })
